@@ -333,6 +333,71 @@ theorem reject_restores_initial (factor : M → Option M) (Minv F : M) (m g : V)
   exact h
 end restore
 
+/-! ### a rejected trajectory leaves no trace (the queue of pending updates included) -/
+
+section prune
+variable {V M α : Type} [Div α] [LT α] [DecidableLT α] [OfScientific α] (la : LinAlg α V M)
+
+/-- an operation inside a trajectory (no accept, no reject) -/
+def inTrajectory : BfgsQOp V → Bool
+  | .direct _ _ => true
+  | .queued _ _ => true
+  | _ => false
+
+/-- a state right after an acceptance or a rejection: the live state is the rollback point and nothing is queued -/
+def CleanQ (s : BFGS V M × List (V × V)) : Prop := s.2 = [] ∧ live s.1 = saved s.1
+
+private theorem trajectory_keeps_backup (factor : M → Option M) (s : BFGS V M × List (V × V)) (t : List (BfgsQOp V))
+    (ht : ∀ o ∈ t, inTrajectory o = true) : saved (t.foldl (bfgsQStep la factor) s).1 = saved s.1 := by
+  induction t generalizing s with
+  | nil => rfl
+  | cons o os ih =>
+    rw [List.foldl_cons, ih _ (fun o' h => ht o' (List.mem_cons_of_mem _ h))]
+    have ho := ht o List.mem_cons_self
+    cases o with
+    | direct m g =>
+      simp only [bfgsQStep, bfgsUpdate, saved]
+      split <;> rfl
+    | queued m g => rfl
+    | accept => simp [inTrajectory] at ho
+    | reject => simp [inTrajectory] at ho
+
+/-- **a rejected trajectory leaves no trace**: from a state right after an acceptance or rejection, any
+    trajectory of in-trajectory and queued updates followed by `reject()` ends in exactly that state
+    again - live metric, momentum factor, reference point, rollback point and (empty) queue -/
+theorem rejected_trajectory_leaves_no_trace (factor : M → Option M) (s : BFGS V M × List (V × V)) (hc : CleanQ s)
+    (t : List (BfgsQOp V)) (ht : ∀ o ∈ t, inTrajectory o = true) :
+    (t ++ [BfgsQOp.reject]).foldl (bfgsQStep la factor) s = s := by
+  obtain ⟨hq, hl⟩ := hc
+  have hb := trajectory_keeps_backup la factor s t ht
+  rw [List.foldl_append]
+  simp only [List.foldl_cons, List.foldl_nil, bfgsQStep]
+  obtain ⟨st, q⟩ := s
+  simp only at hq hl hb ⊢
+  subst hq
+  congr 1
+  simp only [saved, Prod.mk.injEq] at hb
+  simp only [live, saved, Prod.mk.injEq] at hl
+  obtain ⟨h1, h2, h3, h4⟩ := hb
+  obtain ⟨l1, l2, l3, l4⟩ := hl
+  cases st
+  simp only [bfgsReject] at *
+  simp_all
+
+/-- hence a history may be pruned: the rest of a history behaves the same whether or not a rejected
+    trajectory preceded it -/
+theorem history_without_rejected_trajectory (factor : M → Option M) (s : BFGS V M × List (V × V)) (hc : CleanQ s)
+    (t rest : List (BfgsQOp V)) (ht : ∀ o ∈ t, inTrajectory o = true) :
+    (t ++ [BfgsQOp.reject] ++ rest).foldl (bfgsQStep la factor) s = rest.foldl (bfgsQStep la factor) s := by
+  rw [List.foldl_append, rejected_trajectory_leaves_no_trace la factor s hc t ht]
+
+/-- accept and reject both lead to such a state, and so does construction -/
+theorem clean_after_accept_or_reject (factor : M → Option M) (s : BFGS V M × List (V × V)) :
+    CleanQ (bfgsQStep la factor s .accept) ∧ CleanQ (bfgsQStep la factor s .reject) := by
+  constructor <;> exact ⟨rfl, rfl⟩
+theorem clean_init (Minv F : M) (m g : V) : CleanQ ((bfgsInit Minv F m g : BFGS V M), ([] : List (V × V))) := ⟨rfl, rfl⟩
+end prune
+
 /-! ### non-vacuity -/
 example : SPD (1 : Matrix (Fin 2) (Fin 2) ℝ) := by
   refine ⟨Matrix.isSymm_one, fun x hx => ?_⟩
